@@ -1,4 +1,5 @@
 #!/bin/bash
+export GOVC_EVIDENCE_DIR=/tmp/govc-seed-evidence
 # Must-fail corpus: every canary (a fix: commit re-reverted) and every seeded mutant must make its property's
 # quick check exit 1 with a VIOLATION line. Run on /repo's working tree (patches are applied and reverted).
 if [ -n "$(git -C /repo status --porcelain)" ]; then echo "refusing: /repo has uncommitted changes"; exit 2; fi
